@@ -11,7 +11,7 @@
 (* The POSTCONDITION requires that the whole trace was consumed; the       *)
 (* runner decides the exit status from the JUDGE lines.                    *)
 (***************************************************************************)
-EXTENDS TauRule, TauKnown, TauIdent, TauKeys, Json, IOUtils, TLC
+EXTENDS TauRule, TauKnown, TauIdent, TauKeys, TauEngine, Json, IOUtils, TLC
 
 Rec == ndJsonDeserialize(IOEnv.TRACE)
 
@@ -57,15 +57,15 @@ TrLoad ==
   /\ IsEv("load") /\ Adv
   /\ IF phase = "idle" /\ e.out \in LoadOutcomes(cur)
      THEN Load(e.out) /\ Good
-     ELSE /\ Bad(IF e.out = "panic" THEN "load_panic" ELSE "load_outcome", [out |-> e.out])
+     ELSE /\ Bad(IF e.out \in {"panic", "loop"} THEN "load_panic" ELSE "load_outcome", [out |-> e.out])
           /\ phase' = IF e.out = "ok" THEN "loaded" ELSE "failed"
           /\ UNCHANGED <<cur, objs, den, prints>>
 
 (* second load path (from_value): must agree with the first (C14) *)
 TrLoad2 ==
   /\ IsEv("load2") /\ Adv /\ UNCHANGED rvars
-  /\ IF (e.out = "ok") = (phase = "loaded") /\ e.out # "panic" THEN Good
-     ELSE Bad(IF e.out = "panic" THEN "load_panic" ELSE "load_paths_differ", [out |-> e.out])
+  /\ IF (e.out = "ok") = (phase = "loaded") /\ e.out \notin {"panic", "loop"} THEN Good
+     ELSE Bad(IF e.out \in {"panic", "loop"} THEN "load_panic" ELSE "load_paths_differ", [out |-> e.out])
 
 TrOpt ==
   /\ IsEv("opt") /\ Adv
@@ -77,6 +77,24 @@ TrOpt ==
                  [out |-> e.out, sw |-> e.sw])
           /\ objs' = Append(objs, [sw |-> e.sw, st |-> IF e.out = "ok" THEN "ok" ELSE "dead", src |-> 0])
           /\ UNCHANGED <<cur, phase, den, prints>>
+
+(* Engine-layer conformance (not a property clause): the three-valued result the transcribed     *)
+(* parser + solver (TauEngine) predict for the not-optimised rule is compared with the observed *)
+(* one; a difference is printed as rule "model_drift" and never counted as a violation.         *)
+(* what the engine-layer model predicts for object k on document d ("-" when not modelled: an  *)
+(* optimised object, a condition that does not parse)                                          *)
+EngOf(k, d) == IF phase = "loaded" /\ k + 1 \in DOMAIN objs /\ objs[k + 1].sw = <<>> /\ d \in DOMAIN cur.docs
+                  /\ "src" \in DOMAIN cur /\ TextOk(SrcOf(k))
+               THEN EngEval(Ast(SrcOf(k)), cur.docs[d]) ELSE "-"
+WantEng == "plan" \in DOMAIN cur /\ "eng" \in DOMAIN cur.plan /\ cur.plan.eng
+EngDrift(k, d, out) ==
+  IF WantEng /\ phase = "loaded" /\ k + 1 \in DOMAIN objs /\ objs[k + 1].sw = <<>> /\ d \in DOMAIN cur.docs
+     /\ TextOk(SrcOf(k))
+  THEN LET m == EngEval(Ast(SrcOf(k)), cur.docs[d]) IN
+       IF m = "U" \/ m = out THEN TRUE
+       ELSE PrintT("JUDGE " \o ToJson([l |-> l, cl |-> cl, rule |-> "model_drift",
+                                        info |-> [obj |-> k, d |-> d - 1, out |-> out, model |-> m], devs |-> <<>>]))
+  ELSE TRUE
 
 OutBool(o) == o = "t"
 TrMatch ==
@@ -90,6 +108,7 @@ TrMatch ==
                  ELSE "oracle",
                  [obj |-> e.obj, d |-> e.d, out |-> e.out,
                   lang |-> IF d \in DOMAIN cur.docs /\ HasOracle(cur) THEN SetSeq(TriAllowed(d)) ELSE <<>>,
+                  eng |-> EngOf(e.obj, d),
                   sw |-> IF e.obj + 1 \in DOMAIN objs THEN objs[e.obj + 1].sw ELSE <<>>])
           \* re-sync: an observation the oracle rejects still binds the denotation, so that later
           \* observations of the same class are compared with it
@@ -97,7 +116,7 @@ TrMatch ==
           /\ UNCHANGED <<cur, phase, objs, prints>>
 
 TrTri ==
-  /\ IsEv("tri") /\ Adv
+  /\ IsEv("tri") /\ Adv /\ EngDrift(e.obj, e.d + 1, e.out)
   /\ LET d == e.d + 1 IN
      IF e.out \in Tri /\ phase = "loaded" /\ e.obj + 1 \in DOMAIN objs /\ d \in DOMAIN cur.docs
         /\ e.out \in TriAllowed(d) /\ (IF DK(e.obj, d) \in DOMAIN den THEN den[DK(e.obj, d)] = Verdict(e.out) ELSE TRUE)
@@ -107,6 +126,7 @@ TrTri ==
                  ELSE IF e.out \in Tri /\ e.out \in TriAllowed(d) THEN "den" ELSE "tri_oracle",
                  [obj |-> e.obj, d |-> e.d, out |-> e.out,
                   lang |-> IF d \in DOMAIN cur.docs /\ HasOracle(cur) THEN SetSeq(TriAllowed(d)) ELSE <<>>,
+                  eng |-> EngOf(e.obj, d),
                   sw |-> IF e.obj + 1 \in DOMAIN objs THEN objs[e.obj + 1].sw ELSE <<>>])
           /\ UNCHANGED rvars
 
@@ -129,7 +149,7 @@ TrReload ==
   /\ IsEv("reload") /\ Adv
   /\ IF phase = "loaded" /\ e.from + 1 \in DOMAIN objs /\ e.obj = Len(objs) /\ e.out = "ok" /\ e.same
      THEN Reload(e.from, e.obj, e.out, e.same) /\ Good
-     ELSE /\ Bad(IF e.out = "panic" THEN "load_panic"
+     ELSE /\ Bad(IF e.out \in {"panic", "loop"} THEN "load_panic"
                  ELSE IF e.out # "ok" THEN "reload_fails" ELSE "reload_differs",
                  [out |-> e.out, via |-> e.via])
           /\ objs' = Append(objs, [sw |-> <<>>, st |-> IF e.out = "ok" THEN "ok" ELSE "dead", src |-> 0])
@@ -175,7 +195,7 @@ TrAlt ==
   /\ IF phase = "loaded" /\ e.from + 1 \in DOMAIN objs /\ e.obj = Len(objs) /\ e.out = "ok"
         /\ "alts" \in DOMAIN cur /\ e.i + 1 \in DOMAIN cur.alts
      THEN LoadAlt(e.i, e.from, e.obj, e.out) /\ Good
-     ELSE /\ Bad(IF e.out = "panic" THEN "load_panic" ELSE "alt_fails", [out |-> e.out, i |-> e.i])
+     ELSE /\ Bad(IF e.out \in {"panic", "loop"} THEN "load_panic" ELSE "alt_fails", [out |-> e.out, i |-> e.i])
           /\ objs' = Append(objs, [sw |-> <<>>, st |-> "dead", src |-> 0])
           /\ UNCHANGED <<cur, phase, den, prints>>
 
@@ -201,8 +221,8 @@ TrFinds ==
 (* case is case-insensitive)                                                                  *)
 TrIcLoad ==
   /\ IsEv("icload") /\ Adv /\ UNCHANGED rvars
-  /\ IF e.out # "panic" /\ (e.out = "ok") = (phase = "loaded") THEN Good
-     ELSE Bad(IF e.out = "panic" THEN "load_panic" ELSE "ic_load_differs", [out |-> e.out])
+  /\ IF e.out \notin {"panic", "loop"} /\ (e.out = "ok") = (phase = "loaded") THEN Good
+     ELSE Bad(IF e.out \in {"panic", "loop"} THEN "load_panic" ELSE "ic_load_differs", [out |-> e.out])
 
 TrNext == TrIcLoad \/ TrFinds \/ TrAlt \/ TrFound \/ TrIdent \/ TrFload \/ TrCore \/ TrCase \/ TrSkip \/ TrLoad \/ TrLoad2 \/ TrOpt \/ TrMatch \/ TrTri \/ TrValidate \/ TrSer \/ TrReload
 
